@@ -877,6 +877,36 @@ class Scen:
         from dulwich import porcelain
         self._index_op("addall", "addall", lambda: porcelain.add(self.repo))
 
+    def do_clock(self, s):
+        """choose HEAD's commit time: a fixed second, or the current one (waiting for the start of a second)."""
+        import time
+        if s["mode"] == "now":
+            now = time.time()
+            if now - int(now) > 0.55:
+                time.sleep(1.0 - (now - int(now)) + 0.01)
+            self.commit_time = int(time.time())
+        else:
+            self.commit_time = int(s["mode"])
+
+    def do_config(self, s):
+        cfg = self.repo.get_config()
+        cfg.set((b"core",), s["key"].encode(), s["value"].encode())
+        cfg.write_to_path()
+
+    def do_rewrite(self, s):
+        """same size, different content, mtime inside the second of HEAD's commit time at the given nanosecond."""
+        p = unhx(s["path"])
+        full = self.full(p)
+        with open(full, "rb") as f:
+            old = f.read()
+        new = bytes([(old[0] + s["k"]) % 256]) + old[1:]
+        with open(full, "wb") as f:
+            f.write(new)
+        t = self.commit_time * 10 ** 9
+        os.utime(full, ns=(t + 1, t + s["nsec"]))
+        self.fs_dirty = True
+        self.edit_tok("e_modify", p)
+
     def do_clearidx(self, s):
         os.unlink(self.repo.index_path())
         self.tok("clearidx")
@@ -991,7 +1021,13 @@ class Scen:
         if s.get("git"):
             g = self.git_status("normal")
             self.ctx.count(self.stream + ".git-status-normal", (self.label, len(self.script)), True)
-            if g != exp_n:
+            # C git's "normal" mode does not mention an untracked directory `d/` whose name `d` is a tracked FILE in the
+            # index (it prints only " D d"; with -uall it lists d/x): the comparison with git allows exactly that
+            idxn = self.read_index()
+            hidden = {p for p in exp_n.t if p.endswith(b"/") and p[:-1] in idxn}
+            if hidden:
+                self.ctx.count(self.stream + ".git-normal-hides-dir-named-like-tracked-file", (self.label, len(self.script)), False)
+            if g != StatusView(exp_n.a, exp_n.d, exp_n.m, exp_n.u, exp_n.t - hidden):
                 self.ctx.oracle_fail(self.stream, self.case(expected=exp_n.show(), git=g.show()),
                                      "git status (normal mode) disagrees with the three-way comparison", "oracle:git-vs-three-way")
         if s.get("expect_clean") and not exp.clean():
@@ -1310,6 +1346,29 @@ def _stream_changes(ctx):
             ctx.disagree("changes", {"a": a, "b": b}, o, real)
 
 
+def _untracked_probe(rng, sc: Scen, git: bool):
+    """untracked files inside a tracked directory, next to it (sibling names around '/') and inside such a sibling,
+    then status in both untracked modes."""
+    snap, idx = sc.snapshot(), sc.read_index()
+    files = list(snap)
+    alld = sorted({a for p in list(idx) + files for a in ancestors(p)})
+    if not alld:
+        return
+    done = 0
+    for _ in range(12):
+        d = rng.choice(alld)
+        p = rng.choice([d + b"/" + gen_name(rng, "plain"), d + rng.choice(SIBLING_SUFFIXES),
+                        d + rng.choice(SIBLING_SUFFIXES) + b"/" + gen_name(rng, "plain")])
+        if len(p) > 900 or conflicts(p, files) or p.split(b"/")[0] == b".git":
+            continue
+        sc.exec({"op": "write", "path": hx(p), "kind": "r", "content": {"hex": hx(b"untracked")}, "tag": "add-sibling"})
+        files.append(p)
+        done += 1
+        if done >= 2:
+            break
+    sc.exec({"op": "status", "git": git})
+
+
 def _stream_roundtrip(ctx, batch, n=None, stream="roundtrip"):
     """(a) checkout -> files match the tree, status clean, add + Index.commit reproduces the tree id."""
     rng = ctx.rng
@@ -1334,6 +1393,7 @@ def _roundtrip_case(ctx, batch, stream, ents, profile="corpus", git=False):
             sc.exec({"op": "addall"})
             sc.exec({"op": "treecheck", "tree": "t", "git": git, "how": "add (index deleted first)"})
             sc.exec({"op": "status", "git": git})
+            _untracked_probe(ctx.rng, sc, git)
         if len(ctx.samples) < 2:
             ctx.sample({"stream": stream, "tree": [[unhx(p).decode("latin-1"), k] for p, k, _ in ents][:8]})
     finally:
@@ -1535,6 +1595,20 @@ def _switch_case(ctx, batch, stream, a_ents, b_ents, label, git=False, back=Fals
             sc.exec({"op": "status", "git": git, "expect_clean": True})
             sc.exec({"op": "treecheck", "tree": "b", "git": git, "how": "branch switch"})
             if back:
+                _untracked_probe(ctx.rng, sc, git)
+                for st_ in list(sc.script):                      # leave the directory clean again for the way back
+                    if st_.get("tag") == "add-sibling":
+                        sc.exec({"op": "unlink", "path": st_["path"], "tag": "cleanup"})
+                for st_ in list(sc.script):
+                    if st_.get("tag") == "add-sibling":
+                        q = unhx(st_["path"])
+                        for a in reversed(ancestors(q)):
+                            try:
+                                os.rmdir(sc.full(a))
+                            except OSError:
+                                break
+                sc.fs_dirty = True
+            if back:
                 sc.exec({"op": "switch", "tree": "a"})
                 if not sc.failed:
                     sc.exec({"op": "status", "git": git, "expect_clean": True})
@@ -1650,6 +1724,103 @@ def _stream_dirty_switch(ctx, batch, stream="dirtyswitch"):
             batch.add(sc)
 
 
+def _stream_statmatch(ctx):
+    """_stat_matches_entry on random (seconds, nanoseconds) pairs, index entries with 0 nanoseconds over-represented:
+    model vs the real function (pure, in-process)."""
+    import types
+    from dulwich.index import _stat_matches_entry
+    rng = ctx.rng
+    G = 10 ** 9
+    cases = []
+    for _ in range(ctx.budget(400)):
+        base = rng.choice([0, 1, COMMIT_TIME, 2 ** 31 - 1, 2 ** 32 + 5])
+
+        def ts():
+            return (base + rng.choice([0, 0, 0, 1]), rng.choice([0, 0, 1, 5, G - 1, rng.randrange(G)]))
+        sc_, sm_, ec_, em_ = ts(), ts(), ts(), ts()
+        if rng.random() < 0.5:
+            ec_ = (sc_[0], rng.choice([0, sc_[1]]))
+        if rng.random() < 0.7:
+            em_ = (sm_[0], rng.choice([0, sm_[1]]))
+        ssz = rng.choice([0, 4, 5])
+        esz = ssz if rng.random() < 0.8 else 4
+        cases.append((rng.random() < 0.6, sc_, sm_, ssz, ec_, em_, esz))
+    outs = ctx.driver.batch([f"c18.statmatch {int(t)} {a[0] * G + a[1]} {b[0] * G + b[1]} {z} {c[0] * G + c[1]} {d[0] * G + d[1]} {y}"
+                             for t, a, b, z, c, d, y in cases])
+    for (t, a, b, z, c, d, y), o in zip(cases, outs):
+        st_ = types.SimpleNamespace(st_ctime_ns=a[0] * G + a[1], st_mtime_ns=b[0] * G + b[1], st_size=z,
+                                    st_ctime=a[0] + a[1] / G, st_mtime=b[0] + b[1] / G)
+        en = types.SimpleNamespace(ctime=c, mtime=d, size=y)
+        real = "1" if _stat_matches_entry(st_, en, t) else "0"
+        ctx.count("statmatch", (t, a, b, z, c, d, y), True, f"{'trust' if t else 'notrust'}:{real}:ensec0={d[1] == 0}")
+        if o != real:
+            ctx.disagree("statmatch", {"trust": t, "st_ctime": a, "st_mtime": b, "st_size": z, "e_ctime": c, "e_mtime": d, "e_size": y}, o, real)
+        # the racy-git rule in the property's own words: equal answers only for equal full-precision keys
+        same = (not t or a == c) and b == d and z == y
+        if (real == "1") != same:
+            ctx.oracle_fail("statmatch", {"trust": t, "st_ctime": a, "st_mtime": b, "st_size": z, "e_ctime": c, "e_mtime": d, "e_size": y},
+                            f"_stat_matches_entry says {'match' if real == '1' else 'no match'} for stat keys that are "
+                            f"{'equal' if same else 'different'} at full (seconds, nanoseconds) precision")
+
+
+def _stream_samesecond(ctx, batch, stream="samesecond"):
+    """Index entries whose time stamps come from the commit (WorkTree.unstage writes (commit_time, 0) and HEAD's blob
+    size) next to files rewritten with the SAME size within the SAME second as the commit time, at a different
+    nanosecond: the full-precision stat keys differ (StatHonest holds, checked), so status must report the file."""
+    import time
+    rng = ctx.rng
+    info = ctx.extra_cov.setdefault("samesecond_stream", {"cases": 0, "ctime_in_commit_second": 0, "retries": 0})
+    for i in range(ctx.budget(6, mult=4)):
+        trust = i % 2 == 0          # default config: the file's ctime has to fall into the commit's second as well
+        names = [b"a", rng.choice([b"d/b", b"x.a", b"sp ace"])]
+        kinds = [rng.choice(["r", "x"]) for _ in names]
+        seq = rng.choice([["mod", "stage", "unstage"], ["mod", "unstage"], ["mod", "stage", "unstage", "mod"],
+                          ["stage", "mod", "unstage"], ["mod", "stage", "unstage", "addall"]])
+        nsecs = [rng.choice([1, 999, 123456789, 999999999]) for _ in range(8)]
+        for attempt in range(8):
+            sc = Scen(ctx, stream, "trustctime" if trust else "trustctime=false")
+            ok = False
+            try:
+                sc.exec({"op": "clock", "mode": "now" if trust else COMMIT_TIME + 1000 * i + 7})
+                T = sc.commit_time
+                sc.exec({"op": "tree", "name": "t", "entries": [[hx(n), k_, {"hex": hx(b"aaaa" + n)}] for n, k_ in zip(names, kinds)]})
+                sc.exec({"op": "fresh", "tree": "t"})
+                if not trust:
+                    sc.exec({"op": "config", "key": "trustctime", "value": "false"})
+                    # the model has trust_ctime at its default; this half of the stream is checked by the oracle only
+                    sc.model_ok = False
+                k = 0
+                for op in seq:
+                    for n in names:
+                        if op == "mod":
+                            k += 1
+                            sc.exec({"op": "rewrite", "path": hx(n), "k": k, "nsec": nsecs[k % len(nsecs)]})
+                        elif op == "stage":
+                            sc.exec({"op": "stage", "path": hx(n), "via": "worktree"})
+                        elif op == "unstage":
+                            sc.exec({"op": "unstage", "path": hx(n)})
+                    if op == "addall":
+                        sc.exec({"op": "addall"})
+                snap = sc.snapshot()
+                in_second = all(f["stat"][0] // 10 ** 9 == T for f in snap.values())
+                if trust and not in_second:
+                    info["retries"] += 1
+                    continue                                   # the clock ticked over: the scenario says nothing, retry
+                info["cases"] += 1
+                info["ctime_in_commit_second"] += int(in_second)
+                # (C git 2.39.5 is built without USE_NSEC: it compares whole seconds and, unless the entry is racily
+                # clean, misses these rewrites itself -- it is not used as a third party in this stream)
+                sc.exec({"op": "status"})
+                sc.exec({"op": "addall"})
+                sc.exec({"op": "status"})
+                ctx.count(stream, (i, attempt), True, f"{'trust' if trust else 'notrust'}:{'-'.join(seq)}")
+                ok = True
+            finally:
+                batch.add(sc)
+            if ok:
+                break
+
+
 def _stream_linkdir(ctx, batch, stream="linkdir"):
     """Direct oracle only (outside the model's domain): a tracked directory replaced by a symbolic link to another
     directory; the three-way comparison and git say the tracked paths are gone."""
@@ -1715,6 +1886,9 @@ def run(ctx: core.Ctx):
         "symbolic links to directories placed above tracked paths (checked by the direct oracle only, stream 'linkdir')",
         "blob ids: the hash is a parameter of the model; the harness computes blob ids with hashlib (not dulwich) and "
         "hands the model one integer per distinct content",
+        "comparison with C git in 'normal' untracked mode allows git's omission of an untracked directory d/ whose name d is a "
+        "tracked file in the index (git prints only ' D d'); the 'samesecond' stream does not use git (built without "
+        "USE_NSEC it compares whole seconds)",
         "what Path.resolve() makes of each symbolic link (LinkRes) and every stat key are observations supplied by the "
         "harness from the real file system (os.path.realpath / os.lstat), not computed by the model",
     ]
@@ -1722,8 +1896,10 @@ def run(ctx: core.Ctx):
         BIG_SIZES.append(9_000_000)
     batch = Batch(ctx)
     _stream_modes(ctx)
+    _stream_statmatch(ctx)
     _stream_changes(ctx)
     _run_corpus(ctx, batch)
+    _stream_samesecond(ctx, batch)
     _stream_roundtrip(ctx, batch)
     _stream_switch(ctx, batch)
     _stream_edits(ctx, batch)
@@ -1747,6 +1923,21 @@ def search(ctx: core.Ctx):
 def replay(ctx: core.Ctx, data: dict) -> int:
     _hermetic(ctx)
     c = data.get("case", {})
+    if "st_mtime" in c:       # a stat short-cut case
+        import types
+        from dulwich.index import _stat_matches_entry
+        G = 10 ** 9
+        a, b, cc, d = (tuple(c[k]) for k in ("st_ctime", "st_mtime", "e_ctime", "e_mtime"))
+        st_ = types.SimpleNamespace(st_ctime_ns=a[0] * G + a[1], st_mtime_ns=b[0] * G + b[1], st_size=c["st_size"],
+                                    st_ctime=a[0] + a[1] / G, st_mtime=b[0] + b[1] / G)
+        real = bool(_stat_matches_entry(st_, types.SimpleNamespace(ctime=cc, mtime=d, size=c["e_size"]), c["trust"]))
+        same = (not c["trust"] or a == cc) and b == d and c["st_size"] == c["e_size"]
+        print(f"replay: _stat_matches_entry -> {real}; keys equal at full precision: {same}")
+        if real != same:
+            print(f"VIOLATION property=C18 replay={data.get('_path', '<replayed>')}")
+            return 1
+        print("replay: property holds on this case")
+        return 0
     script = c.get("script")
     if not script:
         print("replay: no script in this file (broken-obligation replay): re-run ./check C18")
